@@ -348,7 +348,7 @@ def m_opt_as_mut(px, st, fr, ev):
     if a[0] != "ref":
         return None
     cur = px._read(st, a[1], a[2])
-    inner = ("ref", a[1], a[2] + (("as", "Some"), ("f", "0")), True)
+    inner = ("ref", a[1], a[2] + (("as", "Some"), ("f", "0")), ev["callee"]["path"].endswith("as_mut"))     # as_ref lends a shared reference
     x, y = split2(cur, "Some", "None")
     x["value"], y["value"] = some(inner), NONE
     return [x, y]
@@ -361,6 +361,36 @@ def m_len_utf8(px, st, fr, ev):
     if is_const(c) and isinstance(c[1], int):
         return val(const(1 if c[1] < 0x80 else 2 if c[1] < 0x800 else 3 if c[1] < 0x10000 else 4))
     return None
+
+
+@model("std::char::methods::<impl char>::to_digit", "core::char::methods::<impl char>::to_digit",
+       reason="to_digit(10): Some(c - '0') iff c is an ASCII digit, else None")
+def m_to_digit(px, st, fr, ev):
+    c = deref_val(px, st, ev["args"][0], depth=1)
+    radix = ev["args"][1]
+    if not (is_const(radix) and radix[1] == 10):
+        return None
+    if is_const(c) and isinstance(c[1], int):
+        return val(some(const(c[1] - 48)) if 48 <= c[1] <= 57 else NONE)
+    isd = ("call", "core::num::<impl u8>::is_ascii_digit", (("&", c),), None)
+    px.mark_bool(isd)
+    d = sub_terms(c, const(48))
+    TY.setdefault(d, (32, False))
+    return [
+        {"label": "digit", "value": some(d), "assume": (lambda k: k.set_known(isd, 1))},
+        {"label": "not-a-digit", "value": NONE, "assume": (lambda k: k.set_known(isd, 0))},
+    ]
+
+
+@model("std::char::convert::<impl std::convert::From<u8> for char>::from", "core::char::convert::<impl std::convert::From<u8> for char>::from",
+       reason="char::from(u8): the same scalar value")
+def m_char_from_u8(px, st, fr, ev):
+    return val(ev["args"][0])
+
+
+@model("<std::option::Option<T> as std::default::Default>::default", reason="Option::default() is None")
+def m_option_default(px, st, fr, ev):
+    return val(NONE)
 
 
 @model("std::result::Result::<T, E>::as_ref", "std::result::Result::<T, E>::as_mut",
@@ -605,8 +635,10 @@ def m_opt_filter(px, st, fr, ev):
 
     def keep(b):
         if is_const(b):
-            return some(x) if b[1] else NONE
-        return ("optif", b, x)
+            return t if b[1] else NONE      # kept: the receiver itself (it is Some on this branch)
+        return ("optif", b, x, t)
+    # (a symbolic answer of the predicate makes a conditional option `optif`; PX splits the path on its condition where the
+    # predicate returns, so what flows on is the kept value or None)
     return _two_way(px, t, "Some", "None", ("call", f, [("refconst", x)], keep), ("value", NONE), ev=ev)
 
 
@@ -812,6 +844,8 @@ def m_try_fold(px, st, fr, ev):
         lev = s.extra.setdefault("loop_entry_values", {})
         lev[(info.name, header, key)] = init
         lev[(info.name, header, ("I", 0, ()))] = itv
+        if sig:
+            lev[(info.name, header, key, sig)] = init
         if isinstance(it, tuple) and it and it[0] == "ref" and it[3]:
             px._write(s, it[1], it[2], ("havoc", ("call", "std::iter::Iterator::try_fold", (("&", itv),), ev["uid"]), 0))
         _havoc_captures(px, s, f, info.name, header, sig)
@@ -1258,20 +1292,17 @@ def _eq_canon(x, y):
 
 @model("std::cmp::PartialEq::ne", reason="!= is the negation of ==")
 def m_ne(px, st, fr, ev):
-    a, b = ev["args"]
-    if ev["callee"].get("res_local") and ev["callee"].get("res_path") in px.facts.bodies and \
-            px.inline(ev["callee"], len(st.frames)):
+    r = m_eq(px, st, fr, ev)        # the same folding / canonical term as ==
+    if r is None:
         return None
-    x = seq_of(px, st, a)
-    y = seq_of(px, st, b)
-    if TY.get(x) is not None or TY.get(y) is not None:
-        return val(st.cons.lookup(mk_binop("Ne", x, y)))
-    t = _eq_canon(x, y)
-    px.mark_bool(t)
-    r = st.cons.lookup(t)
-    if is_const(r):
-        return val(const(1 - r[1]))
-    return val(("unop", "Not", t))
+    v = r["value"]
+    if is_const(v):
+        return val(const(1 - v[1]))
+    if isinstance(v, tuple) and v and v[0] == "binop" and v[1] in ("Eq", "Ne"):
+        return val(st.cons.lookup(mk_binop("Ne" if v[1] == "Eq" else "Eq", v[2], v[3])))
+    if isinstance(v, tuple) and v and v[0] == "unop" and v[1] == "Not":
+        return val(v[2])
+    return val(("unop", "Not", v))
 
 
 @model("std::cmp::PartialOrd::le", "std::cmp::PartialOrd::lt", "std::cmp::PartialOrd::gt", "std::cmp::PartialOrd::ge",
@@ -1445,6 +1476,8 @@ def m_position(px, st, fr, ev):
     seq = it
     if isinstance(it, tuple) and it[0] == "iter":
         seq = it[1]
+    elif isinstance(it, tuple) and it and it[0] == "call" and it[1] == "core::str::<impl str>::bytes" and len(it[2]) == 1:
+        seq = it[2][0][1] if isinstance(it[2][0], tuple) and it[2][0] and it[2][0][0] == "&" else it[2][0]     # bytes() of a str: its bytes
     ev["closure"] = ev["args"][1]
     return val(("found", seq, ev["args"][1], ev["uid"], "position"))
 
